@@ -77,9 +77,12 @@ impl<'h> FindMatchesImpl<'h> {
         let mut result;
         trace!("Find next match from offset {}", self.offset);
         loop {
+            // The char indices are relative to the offset, so the haystack handed over must be
+            // the input from the offset on. Otherwise lookaheads are evaluated at wrong places.
+            let haystack = self.input.get(self.offset..).unwrap_or("");
             result = self
                 .scanner_impl
-                .find_from(self.input, self.char_indices.clone());
+                .find_from(haystack, self.char_indices.clone());
             if let Some(mut matched) = result {
                 self.advance_beyond_match(matched);
                 matched.add_offset(self.offset);
@@ -108,10 +111,10 @@ impl<'h> FindMatchesImpl<'h> {
         let mut matches = Vec::with_capacity(n);
         let mut mode_switch = false;
         let mut new_mode = 0;
+        // See `next_match`: the char indices are relative to the offset.
+        let haystack = self.input.get(self.offset..).unwrap_or("");
         for _ in 0..n {
-            let result = self
-                .scanner_impl
-                .peek_from(self.input, char_indices.clone());
+            let result = self.scanner_impl.peek_from(haystack, char_indices.clone());
             if let Some(mut matched) = result {
                 let token_type = matched.token_type();
                 Self::advance_char_indices_beyond_match(&mut char_indices, matched);
